@@ -15,6 +15,33 @@ fn main() {
         .and_then(|r| r.split('"').next())
         .expect("path of redis-sim in Cargo.toml")
         .to_string();
+    // optional verification hooks of the tree this harness is built against:
+    //   cfg `verif_h1c` = `production::verif_hooks::encode_reply` (hook H1c) is present.
+    // (./check C15 reports `C15:coverage:hook-h1c-absent` when it is not: encoders 3 and 4 would
+    // silently go undriven.)
+    println!("cargo:rustc-check-cfg=cfg(verif_h1c)");
+    let hooks = PathBuf::from(&dep).join("src/production/mod.rs");
+    println!("cargo:rerun-if-changed={}", hooks.display());
+    if fs::read_to_string(&hooks).map(|s| s.contains("pub fn encode_reply")).unwrap_or(false) {
+        println!("cargo:rustc-cfg=verif_h1c");
+    }
+    // the reply encoders of the binary src/bin/server_persistent.rs (private to a bin target): their
+    // SOURCE TEXT is compiled into the harness (cfg `verif_persist_enc`) so that C15 drives that very code
+    println!("cargo:rustc-check-cfg=cfg(verif_persist_enc)");
+    let persist = PathBuf::from(&dep).join("src/bin/server_persistent.rs");
+    println!("cargo:rerun-if-changed={}", persist.display());
+    if let Ok(ps) = fs::read_to_string(&persist) {
+        if let Some(i) = ps.find("\nfn encode_resp_into(") {
+            let rest = &ps[i..];
+            let end = rest.find("\n#[cfg(test)]").unwrap_or(rest.len());
+            let text = &rest[..end];
+            if text.contains("fn encode_error_into(") {
+                let dest = PathBuf::from(std::env::var("OUT_DIR").unwrap()).join("persist_enc.rs");
+                fs::write(dest, text).unwrap();
+                println!("cargo:rustc-cfg=verif_persist_enc");
+            }
+        }
+    }
     let file = PathBuf::from(&dep).join("src/production/sharded_actor.rs");
     println!("cargo:rerun-if-changed={}", file.display());
     println!("cargo:rerun-if-changed=Cargo.toml");
